@@ -120,7 +120,7 @@ Theorem frac_bytes_private : forall cp payload pick sched st, wfp st ->
   let st' := run_prog cp payload (prog_ok pick) sched st in
   p_file st' = Some (cp payload) /\ wfp st'.
 Proof.
-  intros cp payload pick sched st W. unfold prog_ok. simpl run_prog.
+  intros cp payload pick sched st W. cbv zeta.
   set (c0 := hd [] sched). set (c1 := hd [] (tl sched)). set (c2 := hd [] (tl (tl sched))).
   set (c3 := hd [] (tl (tl (tl sched)))). set (c4 := hd [] (tl (tl (tl (tl sched))))).
   (* Acquire *)
@@ -169,6 +169,7 @@ Proof.
     destruct H7 as [_ [L _]]. intros x o H. apply (wfp_set_owner b Free s7 L W7 x o). exact H. }
   destruct F8 as [F8 W8].
   destruct (run_others_frame c4 s8) as [_ [_ F9]].
+  change (p_file (run_others c4 s8) = Some (cp payload) /\ wfp (run_others c4 s8)).
   split; [congruence|now apply run_others_wfp].
 Qed.
 
@@ -176,21 +177,30 @@ Lemma bytes_eqb_refl : forall a, bytes_eqb a a = true.
 Proof. induction a as [|x r IH]; simpl; [reflexivity|]. now rewrite N.eqb_refl. Qed.
 
 (* every fraction of the request, one after the other on the same pool *)
+Definition reset (st : pstate) : pstate :=
+  {| p_owner := p_owner st; p_bufs := p_bufs st; p_next := p_next st; p_mine := None; p_slice := None; p_file := None |}.
+Lemma pool_fracs_cons : forall cp payload prog f pick sched r st,
+  pool_fracs cp payload prog ((f, (pick, sched)) :: r) st =
+  (match p_file (run_prog cp (payload f) (prog pick) sched (reset st)) with
+   | Some b => if bytes_eqb b (cp (payload f)) then CQpr f else CTorn
+   | None => CTorn
+   end) :: pool_fracs cp payload prog r (run_prog cp (payload f) (prog pick) sched (reset st)).
+Proof. reflexivity. Qed.
+
 Theorem fracs_bytes_private : forall cp payload plan st, wfp st ->
   pool_fracs cp payload prog_ok plan st = map (fun p => CQpr (fst p)) plan.
 Proof.
-  intros cp payload plan. induction plan as [|[f [pick sched]] r IH]; intros st W; simpl; [reflexivity|].
-  set (st0 := {| p_owner := p_owner st; p_bufs := p_bufs st; p_next := p_next st; p_mine := None;
-                 p_slice := None; p_file := None |}).
-  assert (W0 : wfp st0) by (intros x o H; apply (W x o); exact H).
-  destruct (frac_bytes_private cp (payload f) pick sched st0 W0) as [F W']. cbv zeta in F, W'.
-  rewrite F, bytes_eqb_refl. f_equal. now apply IH.
+  intros cp payload plan. induction plan as [|[f [pick sched]] r IH]; intros st W; [reflexivity|].
+  rewrite pool_fracs_cons.
+  assert (W0 : wfp (reset st)) by (intros x o H; apply (W x o); exact H).
+  destruct (frac_bytes_private cp (payload f) pick sched (reset st) W0) as [F W']. cbv zeta in F, W'.
+  rewrite F, bytes_eqb_refl. simpl map. f_equal. now apply IH.
 Qed.
 
 Lemma start_ops_with_ok : forall fs, start_ops_with fs (map CQpr fs) = start_ops fs.
 Proof.
   intro fs. unfold start_ops_with, start_ops. f_equal. f_equal. destruct (nullb fs); [reflexivity|].
-  unfold dosearch_ops. f_equal. induction fs as [|f r IH]; simpl; [reflexivity|]. f_equal. exact IH.
+  unfold dosearch_ops. f_equal. induction fs as [|f r IH]; simpl; [reflexivity|]. now rewrite IH.
 Qed.
 
 (* C19_qpr_bytes_private: the directory of a run under pool pressure is the directory of the protocol
